@@ -400,8 +400,7 @@ func c18MuxScenarios(thorough bool) []*explore.Scenario {
 	}
 	if os.Getenv("C18_EXPERIMENT") != "" {
 		sc := mk("mux-x", []c18Prog{{c18LS, c18C5, c18XS, c18LS}, {c18LS, c18C5, c18XS, c18LS, c18AS}})
-		sc.Quick.FreeSwitch = true
-		sc.Quick.P = 1
+		sc.Quick.P = 3
 		return []*explore.Scenario{sc}
 	}
 	return []*explore.Scenario{
